@@ -15,7 +15,7 @@ PDel(m, k)    == [x \in DOMAIN m \ {k} |-> m[x]]
 \* obs = [count, range, get, exists, str, mustStr, int, mustInt, uint, mustUint, bool, mustBool, float, mustFloat]
 NumOK(m, k, got, must, sc, def) ==
   IF k \in DOMAIN m
-  THEN /\ got.err = (IF sc.ok THEN "none" ELSE "other") /\ (sc.ok => got.v = sc.v)
+  THEN /\ got.err = (IF sc.ok THEN "none" ELSE "other") /\ got.v = sc.v      \* strconv's value also on error (clamped on range errors)
        /\ must = (IF sc.ok THEN sc.v ELSE def)
   ELSE got.err = "notexists" /\ must = def
 AccessOK(m, k, o) ==
